@@ -461,30 +461,37 @@ func main() {
 			}
 			if b.impl.verdict() != k.impl.verdict() {
 				rep.Fail(hx.Failure{Class: k.p.Family + "/" + k.variant + "-verdict", Oracle: "verdict invariant under " + what,
-					Detail: detail(k, map[string]any{"kind": "variant", "base_source": b.src, "base_verdict": b.impl.verdict(), "base_error": b.impl.Raw})})
+					Detail: detail(k, map[string]any{"kind": "variant", "base_source": b.src, "base_verdict": b.impl.verdict(), "base_error": b.impl.Raw, "rename": k.rmap})})
 			} else if k.impl.Ok {
-				bv, kv := parseVars(b.impl.Tables), parseVars(k.impl.Tables)
-				ren := applyMap(k.rmap)
-				same := len(bv) == len(kv)
-				for key, e := range bv {
-					e2, ok := kv[vkey{ren(key.Fn), ren(key.V)}]
-					if !ok || e2.Type != e.Type || e2.Scope != e.Scope {
-						same = false
-					}
-					// indexes: equal unless the renaming changes the name order of the globals
-					if ok && (k.variant == "perm" || k.variant == "rename-suffix" || key.Fn != "") && e2.Index != e.Index {
-						same = false
-					}
-				}
+				same := variantSame(b.impl.Tables, k.impl.Tables, k.rmap, k.variant)
 				if !same {
 					rep.Fail(hx.Failure{Class: k.p.Family + "/" + k.variant + "-types", Oracle: "types and indexes invariant under " + what,
-						Detail: detail(k, map[string]any{"kind": "variant", "base_source": b.src, "base_verdict": "ok", "base_tables": b.impl.Tables})})
+						Detail: detail(k, map[string]any{"kind": "variant", "base_source": b.src, "base_verdict": "ok", "base_tables": b.impl.Tables, "rename": k.rmap})})
 				}
 			}
 		}
 	}
 	execOracle(ks, rep)
 	rep.Write(o.Out)
+}
+
+// variantSame: the variant's variable table equals the base's after renaming: same
+// variables, scopes and types; same indexes unless the renaming changes the name
+// order of the globals.
+func variantSame(baseTables, varTables string, rmap map[string]string, variant string) bool {
+	bv, kv := parseVars(baseTables), parseVars(varTables)
+	ren := applyMap(rmap)
+	same := len(bv) == len(kv)
+	for key, e := range bv {
+		e2, ok := kv[vkey{ren(key.Fn), ren(key.V)}]
+		if !ok || e2.Type != e.Type || e2.Scope != e.Scope {
+			same = false
+		}
+		if ok && (variant == "perm" || variant == "rename-suffix" || key.Fn != "") && e2.Index != e.Index {
+			same = false
+		}
+	}
+	return same
 }
 
 // ---- replay ----
@@ -546,14 +553,17 @@ func replay(o hx.Opts) int {
 		if b.verdict() != res.verdict() {
 			return 1
 		}
-		if res.Ok && varsPart(res.Tables) != varsPart(b.Tables) && str("variant") == "perm" {
-			return 1
-		}
-		if res.verdict() != str("impl_verdict") || b.verdict() != str("base_verdict") {
-			return 0
-		}
-		if res.Ok && str("variant") != "perm" {
-			return 1 // renamed tables were compared by the harness run; still the same verdicts and a recorded difference
+		if res.Ok {
+			rmap := map[string]string{}
+			if m, ok := d["rename"].(map[string]any); ok {
+				for a, b := range m {
+					rmap[a], _ = b.(string)
+				}
+			}
+			if !variantSame(b.Tables, res.Tables, rmap, str("variant")) {
+				fmt.Println("variable tables differ (after renaming)")
+				return 1
+			}
 		}
 	case "exec":
 		out, errs := runProgram(src)
